@@ -82,7 +82,7 @@ Step(e) ==
 
 L1Clauses == {"TypeOK", "PhaseOrder", "OnlyEnabled", "ListOrder", "Complete", "RaisesOnlyFromDevice", "JavaOpts", "Validation",
               "ThreadPerCluster", "Spacing", "NoMissedSample", "StopSeenWithinASecond", "AtMostOneRecordAfterStop",
-              "NothingAfterJoin", "JoinOnlyWhenDone", "StopJoinsAll", "EndsOnlyWhenStopped", "CrashOnlyOnError",
+              "NothingAfterJoin", "JoinOnlyWhenDone", "StopJoinsAll", "EndsOnlyWhenStopped", "CrashOnlyOnError", "NodeStatsSurvivesTransportError",
               "SamplesStored", "BaseMeta", "JvmDelta", "IngestDelta", "DiskIoStored", "IndexStatsAbs", "StartupDelta",
               "IndexStatsNeverRaises"}
 PinnedClauses == {"P_Isolation", "P_NoSamplerLeftBehind", "P_FirstAtStart", "P_SamplerSurvives", "P_SwallowersNeverRaise",
@@ -112,6 +112,7 @@ Consume ==
                      [] c = "StopJoinsAll" -> StopJoinsAll'
                      [] c = "EndsOnlyWhenStopped" -> EndsOnlyWhenStopped'
                      [] c = "CrashOnlyOnError" -> CrashOnlyOnError'
+                     [] c = "NodeStatsSurvivesTransportError" -> NodeStatsSurvivesTransportError'
                      [] c = "SamplesStored" -> SamplesStored'
                      [] c = "BaseMeta" -> BaseMeta'
                      [] c = "JvmDelta" -> JvmDelta'
